@@ -216,7 +216,8 @@ def gen_cases(tier: str, seed: int):
 def gen_html_cases(tier: str, seed: int):
     rng = random.Random(seed + 1)
     out = []
-    atoms = ["a", "", "<pre>", "(0, 0, 0, 0) ", "x y", "é"]
+    # no atom contains "<pre>": the oracle counts the labels "<pre>(i, j, k, m) "
+    atoms = ["a", "", "</pre>", "(0, 0, 0, 0) ", "x y", "é", "<td>"]
     for _ in range(60 if tier == "quick" else 3000):
         def build(level):
             if level == 5:
@@ -258,7 +259,8 @@ def summarise(results, ctx):
     if herr:
         corr.append({"correspondence": "harness error", "detail": herr[0]})
     samples = [json.loads(k) for k in sorted(keys)[:3]]
-    return {"evaluations": len(results), "distinct_nontrivial": len(keys), "rule": RULE,
+    return {"_xcheck": [tuple(r["_xcheck"]) for r in results if r.get("_xcheck")],
+            "evaluations": len(results), "distinct_nontrivial": len(keys), "rule": RULE,
             "samples": samples, "feature_histogram": feats, "model_drift_outside_domain": drift,
             "exhaustive": True, "violations": violations, "corr_broken": corr, "known": []}
 
